@@ -1048,6 +1048,13 @@ def m_prod(I, t, dim=None, keepdim=False, dtype=None):
     return CT(_reduce(t, dim, sc_mul, 1, keepdim), t.dtype)
 
 
+@method("mean")
+def m_mean(I, t, dim=None, keepdim=False, dtype=None):
+    s_ = m_sum(I, t.cast("float") if t.dtype != "float" else t, dim, keepdim)
+    n = t.a.size if dim is None else (int(np.prod([t.shape[_dim(t, d)] for d in dim])) if isinstance(dim, (tuple, list)) else t.shape[_dim(t, dim)])
+    return CT.ew(lambda x: sc_div(x, n), s_, dtype="float")
+
+
 @method("any")
 def m_any(I, t, dim=None, keepdim=False):
     src = t.cast("bool") if t.dtype != "bool" else t
